@@ -20,8 +20,8 @@ Proof.
   - rewrite contains_app, contains_cons. rewrite (no_ws_contains 10 _ eq_refl Hn), (dec_no_nl _ Hv). reflexivity.
 Qed.
 
-Lemma vm_field_line v : wf_vline v = true ->
-  vm_field (k_vline v) = Val (dec_val (vl_val v) * 4 * 1024).
+Lemma vm_field_line mul v : wf_vline v = true ->
+  vm_field mul (k_vline v) = Val (dec_val (vl_val v) * mul).
 Proof.
   intros H. apply wf_vline_inv in H as [Hn [_ Hv]].
   unfold vm_field, k_vline. rewrite split_on_app by (now apply no_ws_contains).
@@ -30,28 +30,28 @@ Proof.
   - rewrite contains_app, (dec_no_sp _ Hv). reflexivity.
 Qed.
 
-Definition vstep (st : option Z * option Z) (v : vline) : option Z * option Z :=
-  if beqb (vl_name v) K_pswpin then (Some (dec_val (vl_val v) * 4 * 1024), snd st)
-  else if beqb (vl_name v) K_pswpout then (fst st, Some (dec_val (vl_val v) * 4 * 1024))
+Definition vstep (mul : Z) (st : option Z * option Z) (v : vline) : option Z * option Z :=
+  if beqb (vl_name v) K_pswpin then (Some (dec_val (vl_val v) * mul), snd st)
+  else if beqb (vl_name v) K_pswpout then (fst st, Some (dec_val (vl_val v) * mul))
   else st.
 
-Fixpoint vloop (sin sout : option Z) (vs : list vline) : option (Z * Z) :=
+Fixpoint vloop (mul : Z) (sin sout : option Z) (vs : list vline) : option (Z * Z) :=
   match vs with
   | [] => None
   | v :: r =>
-    match vstep (sin, sout) v with
+    match vstep mul (sin, sout) v with
     | (Some a, Some b) => Some (a, b)
-    | (a, b) => vloop a b r
+    | (a, b) => vloop mul a b r
     end
   end.
 
-Lemma vmstat_loop_lines vs : forall sin sout, forallb wf_vline vs = true ->
-  vmstat_loop sin sout (map k_vline vs) = Val (vloop sin sout vs).
+Lemma vmstat_loop_lines mul vs : forall sin sout, forallb wf_vline vs = true ->
+  vmstat_loop mul sin sout (map k_vline vs) = Val (vloop mul sin sout vs).
 Proof.
   induction vs as [|v vs IH]; intros sin sout H; [reflexivity|].
   cbn [forallb] in H. apply andb_true_iff in H as [Hv Hr].
   cbn [map vmstat_loop vloop].
-  pose proof (vm_field_line v Hv) as HF.
+  pose proof (vm_field_line mul v Hv) as HF.
   apply wf_vline_inv in Hv as [Hn [Ho Hd]].
   assert (P1 : prefixb K_pswpin (k_vline v) = prefixb K_pswpin (vl_name v))
     by (unfold k_vline; apply prefixb_app_sep; reflexivity).
@@ -75,7 +75,7 @@ Proof.
 Qed.
 
 Definition orelse (a b : option Z) : option Z := match a with Some _ => a | None => b end.
-Definition pages4k (o : option Z) : option Z := option_map (fun p => p * 4 * 1024) o.
+Definition pages4k (mul : Z) (o : option Z) : option Z := option_map (fun p => p * mul) o.
 Definition both (a b : option Z) : option (Z * Z) :=
   match a, b with Some x, Some y => Some (x, y) | _, _ => None end.
 
@@ -85,12 +85,12 @@ Proof.
   cbn [map existsb] in H. apply orb_false_iff in H as [H1 H2]. cbn [vfind]. rewrite H1. now apply IH.
 Qed.
 
-Lemma vloop_spec vs : forall sa sb,
+Lemma vloop_spec mul vs : forall sa sb,
   nodupb (map vl_name vs) = true ->
   (sa <> None -> existsb (beqb K_pswpin) (map vl_name vs) = false) ->
   (sb <> None -> existsb (beqb K_pswpout) (map vl_name vs) = false) ->
   (sa = None \/ sb = None) ->
-  vloop sa sb vs = both (orelse sa (pages4k (vfind K_pswpin vs))) (orelse sb (pages4k (vfind K_pswpout vs))).
+  vloop mul sa sb vs = both (orelse sa (pages4k mul (vfind K_pswpin vs))) (orelse sb (pages4k mul (vfind K_pswpout vs))).
 Proof.
   induction vs as [|v vs IH]; intros sa sb Hn Ha Hb Hab.
   - cbn. destruct Hab as [-> | ->]; [reflexivity|]. destruct sa; reflexivity.
@@ -106,7 +106,7 @@ Proof.
       rewrite E2. cbn [orelse pages4k option_map].
       destruct sb as [b|].
       * reflexivity.
-      * assert (X1 : Some (dec_val (vl_val v) * 4 * 1024) <> None ->
+      * assert (X1 : Some (dec_val (vl_val v) * mul) <> None ->
                      existsb (beqb K_pswpin) (map vl_name vs) = false)
           by (intros _; rewrite <- E1; exact Hn1).
         assert (X2 : @None Z <> None -> existsb (beqb K_pswpout) (map vl_name vs) = false)
@@ -122,12 +122,12 @@ Proof.
         -- reflexivity.
         -- assert (X1 : @None Z <> None -> existsb (beqb K_pswpin) (map vl_name vs) = false)
              by (intros X; congruence).
-           assert (X2 : Some (dec_val (vl_val v) * 4 * 1024) <> None ->
+           assert (X2 : Some (dec_val (vl_val v) * mul) <> None ->
                         existsb (beqb K_pswpout) (map vl_name vs) = false)
              by (intros _; rewrite <- E2; exact Hn1).
            rewrite (IH _ _ Hn2 X1 X2 (or_introl eq_refl)). reflexivity.
-      * assert (IHx : vloop sa sb vs =
-                      both (orelse sa (pages4k (vfind K_pswpin vs))) (orelse sb (pages4k (vfind K_pswpout vs)))).
+      * assert (IHx : vloop mul sa sb vs =
+                      both (orelse sa (pages4k mul (vfind K_pswpin vs))) (orelse sb (pages4k mul (vfind K_pswpout vs)))).
         { apply IH; auto.
           - intros X. specialize (Ha X). cbn [map existsb] in Ha. now apply orb_false_iff in Ha as [_ Ha].
           - intros X. specialize (Hb X). cbn [map existsb] in Hb. now apply orb_false_iff in Hb as [_ Hb]. }
@@ -135,9 +135,9 @@ Proof.
         destruct Hab; discriminate.
 Qed.
 
-Theorem vmstat_printed vs : wf_vmstat vs = true ->
-  vmstat_loop None None (lines_keep (k_vmstat vs))
-  = Val (both (pages4k (vfind K_pswpin vs)) (pages4k (vfind K_pswpout vs))).
+Theorem vmstat_printed mul vs : wf_vmstat vs = true ->
+  vmstat_loop mul None None (lines_keep (k_vmstat vs))
+  = Val (both (pages4k mul (vfind K_pswpin vs)) (pages4k mul (vfind K_pswpout vs))).
 Proof.
   intros H. unfold wf_vmstat in H. apply andb_true_iff in H as [Hw Hn].
   unfold k_vmstat. rewrite lines_keep_concat.
@@ -147,61 +147,53 @@ Proof.
 Qed.
 
 (* ================================================================ main theorems *)
-Theorem swap_exact k : wf_kernel k = true -> k_pagesize k = 4096 ->
-  swap_memory (k_meminfo (k_mem k)) (k_sysinfo k) (option_map k_vmstat (k_vm k)) = Val (spec_swap k).
+(* [mul] = what the code multiplies the page counts by *)
+Lemma swap_general mul k : wf_kernel k = true ->
+  swap_memory mul (k_meminfo (k_mem k)) (k_sysinfo k) (option_map k_vmstat (k_vm k))
+  = Val (spec_swap {| k_mem := k_mem k; k_zone := k_zone k; k_vm := k_vm k;
+                      k_pagesize := mul; k_sysinfo := k_sysinfo k |}).
 Proof.
-  intros Hwf Hps. unfold wf_kernel in Hwf.
+  intros Hwf. unfold wf_kernel in Hwf.
   apply andb_true_iff in Hwf as [Hwf Hv]. apply andb_true_iff in Hwf as [Hm _].
   destruct (parse_meminfo_printed (k_mem k) Hm) as [d [Hp Hd]].
   unfold swap_memory. rewrite Hp. cbn [obind]. unfold K_SwapTotal, K_SwapFree. rewrite !Hd.
-  change (match kbytes (k_mem k) "SwapTotal:" with
-          | Some t => match kbytes (k_mem k) "SwapFree:" with
-                      | Some f => (t, f)
-                      | None => let '(st, sf, unit) := k_sysinfo k in (st * unit, sf * unit)
-                      end
-          | None => let '(st, sf, unit) := k_sysinfo k in (st * unit, sf * unit)
-          end) with (sw_total_free k).
-  unfold spec_swap, sw_io, sw_percent10, sw_used, sw_total, sw_free.
-  destruct (sw_total_free k) as [t f]. cbn [fst snd].
+  unfold spec_swap, sw_io, sw_percent10, sw_used, sw_total, sw_free, sw_total_free.
+  cbn [k_mem k_vm k_pagesize k_sysinfo].
+  set (tf := match kbytes (k_mem k) "SwapTotal:" with
+             | Some t => match kbytes (k_mem k) "SwapFree:" with
+                         | Some f => (t, f)
+                         | None => let '(st, sf, unit) := k_sysinfo k in (st * unit, sf * unit)
+                         end
+             | None => let '(st, sf, unit) := k_sysinfo k in (st * unit, sf * unit)
+             end).
+  destruct tf as [t f]. cbn [fst snd].
   destruct (k_vm k) as [vs|]; cbn [option_map opt_forall] in *.
-  - rewrite (vmstat_printed vs Hv). cbn [obind]. rewrite Hps.
+  - rewrite (vmstat_printed mul vs Hv). cbn [obind].
     change (bs "pswpin") with K_pswpin. change (bs "pswpout") with K_pswpout.
     destruct (vfind K_pswpin vs) as [i|]; [|reflexivity].
-    destruct (vfind K_pswpout vs) as [o|]; [|reflexivity].
-    cbn [pages4k option_map both]. f_equal. f_equal; lia.
+    destruct (vfind K_pswpout vs) as [o|]; reflexivity.
   - reflexivity.
 Qed.
 
-(* sin/sout are pages * 4096 whatever the page size: on a 64K-page kernel the demanded
-   bytes (pages * page size) are NOT what the code reports *)
+(* the code as it is now (commit fe3ce75) multiplies by the page size: full strength *)
+Theorem swap_exact k : wf_kernel k = true ->
+  swap_memory (k_pagesize k) (k_meminfo (k_mem k)) (k_sysinfo k) (option_map k_vmstat (k_vm k))
+  = Val (spec_swap k).
+Proof. intros Hwf. rewrite (swap_general (k_pagesize k) k Hwf). destruct k; reflexivity. Qed.
+
+(* the code before fe3ce75 multiplied by the literal 4096 whatever the page size: on a
+   64K-page kernel the demanded bytes (pages * page size) were not what it reported *)
 Definition bigpage_kernel : kernel :=
   {| k_mem := [ ml "SwapTotal:" 5 "2097148"; ml "SwapFree:" 6 "2000000" ];
      k_zone := None;
-     k_vm := Some [ {| vl_name := bs "pswpin"; vl_val := bs "1" |}; {| vl_name := bs "pswpout"; vl_val := bs "2" |} ];
+     k_vm := Some [ {| vl_name := bs "pgpgin"; vl_val := bs "7" |}; {| vl_name := bs "pswpin"; vl_val := bs "1" |};
+                    {| vl_name := bs "pswpout"; vl_val := bs "2" |} ];
      k_pagesize := 65536; k_sysinfo := (0, 0, 1) |}.
-Theorem swap_pagesize_sensitive :
+Theorem swap_literal_4096_refuted :
   exists k r, wf_kernel k = true /\ k_pagesize k = 65536 /\
-    swap_memory (k_meminfo (k_mem k)) (k_sysinfo k) (option_map k_vmstat (k_vm k)) = Val r /\
+    swap_memory 4096 (k_meminfo (k_mem k)) (k_sysinfo k) (option_map k_vmstat (k_vm k)) = Val r /\
     s_sin r = 4096 /\ s_sin (spec_swap k) = 65536 /\ s_sout r = 8192 /\ s_sout (spec_swap k) = 131072.
 Proof. exists bigpage_kernel. eexists. repeat split; vm_compute; reflexivity. Qed.
-
-(* everything except sin/sout is independent of the page size *)
-Theorem swap_exact_any_pagesize k : wf_kernel k = true ->
-  exists r, swap_memory (k_meminfo (k_mem k)) (k_sysinfo k) (option_map k_vmstat (k_vm k)) = Val r /\
-    s_total r = sw_total k /\ s_free r = sw_free k /\ s_used r = sw_total k - sw_free k /\
-    s_percent10 r = sw_percent10 k /\ s_warned r = s_warned (spec_swap k) /\
-    (s_warned r = true -> s_sin r = 0 /\ s_sout r = 0).
-Proof.
-  intros Hwf.
-  pose (k' := {| k_mem := k_mem k; k_zone := k_zone k; k_vm := k_vm k; k_pagesize := 4096; k_sysinfo := k_sysinfo k |}).
-  assert (H' : wf_kernel k' = true) by exact Hwf.
-  pose proof (swap_exact k' H' eq_refl) as E. cbn [k' k_mem k_sysinfo k_vm] in E.
-  eexists. split; [exact E|].
-  unfold spec_swap, sw_io. cbn [k_vm k_pagesize k'].
-  destruct (k_vm k) as [vs|].
-  - destruct (vfind (bs "pswpin") vs), (vfind (bs "pswpout") vs); cbn; repeat split; try reflexivity; discriminate.
-  - cbn. repeat split; reflexivity.
-Qed.
 
 (* free <= total (and a non-negative total)  ->  0 <= percent <= 100 *)
 Theorem swap_range k : 0 <= sw_free k <= sw_total k -> 0 <= sw_percent10 k <= 1000.
@@ -212,19 +204,20 @@ Proof.
   apply round_he_range; nia.
 Qed.
 
-(* the code zeroes BOTH counters when only one of them is missing (observation: no kernel
-   prints one without the other -- same #ifdef block of vmstat_text) *)
-Theorem swap_one_sided_zeroes_both k vs i :
-  wf_kernel k = true -> k_vm k = Some vs ->
-  vfind (bs "pswpin") vs = Some i -> vfind (bs "pswpout") vs = None ->
-  exists r, swap_memory (k_meminfo (k_mem k)) (k_sysinfo k) (option_map k_vmstat (k_vm k)) = Val r /\
-            s_sin r = 0 /\ s_sout r = 0 /\ s_warned r = true.
+(* whichever of vmstat / the two counters is missing: the call succeeds, sin = sout = 0, warning *)
+Theorem swap_missing_counters k r : wf_kernel k = true ->
+  swap_memory (k_pagesize k) (k_meminfo (k_mem k)) (k_sysinfo k) (option_map k_vmstat (k_vm k)) = Val r ->
+  (k_vm k = None \/
+   (exists vs, k_vm k = Some vs /\ (vfind (bs "pswpin") vs = None \/ vfind (bs "pswpout") vs = None))) ->
+  s_sin r = 0 /\ s_sout r = 0 /\ s_warned r = true /\
+  s_total r = sw_total k /\ s_free r = sw_free k /\ s_used r = sw_total k - sw_free k.
 Proof.
-  intros Hwf Hv Hi Ho. destruct (swap_exact_any_pagesize k Hwf) as [r [E [_ [_ [_ [_ [W Z]]]]]]].
-  exists r. split; [exact E|].
-  assert (s_warned r = true).
-  { rewrite W. unfold spec_swap, sw_io. rewrite Hv, Hi, Ho. reflexivity. }
-  destruct (Z H) as [Z1 Z2]. auto.
+  intros Hwf Hr H. rewrite (swap_exact k Hwf) in Hr. injection Hr as <-.
+  unfold spec_swap, sw_io, sw_used. destruct H as [-> | [vs [-> [E|E]]]].
+  - cbn [s_sin s_sout s_warned s_total s_free s_used]. repeat split; reflexivity.
+  - rewrite E. cbn [s_sin s_sout s_warned s_total s_free s_used]. repeat split; reflexivity.
+  - rewrite E. destruct (vfind (bs "pswpin") vs);
+      cbn [s_sin s_sout s_warned s_total s_free s_used]; repeat split; reflexivity.
 Qed.
 
 Example sample_swap_ok :
